@@ -433,6 +433,116 @@ def gen_lexer(m, tier):
     return "\n".join(o)
 
 
+SPLIT_ENABLED_IN_QUICK = False
+SPLIT_QUICK = {"data_state": "C02", "rcdata_state": "C02", "comment_state": "C02", "markup_declaration_open_state": "C02",
+               "bogus_comment_state": "C02,C09", "tag_name_state": "C02", "attribute_value_double_quoted_state": "C02",
+               "script_data_escaped_state": "C02"}
+
+
+def gen_split(m, tier):
+    """split-vs-whole harnesses (DESIGN §10.6): one per lexer state whose #[inline] chain is shallow"""
+    o = []
+    w = o.append
+    w("//! GENERATED by /verif/gen/gen_steps.py from /repo's tokenizer DSL on every check run. Do not edit.")
+    w("// @requires src/parser/lexer/verif_kani_split.rs")
+    w("// @requires src/parser/lexer/verif_kani_steps_gen.rs")
+    w("#![allow(non_upper_case_globals, unused_imports, dead_code, unreachable_patterns)]")
+    w("use super::verif_kani_split::*;")
+    w("use super::verif_kani_steps::*;")
+    w("use super::verif_kani_steps_gen::T;")
+    w("use super::*;")
+    w("use crate::parser::state_machine::StateMachine;")
+    w("")
+    sid = {n: i for i, n in enumerate(m.order)}
+    for n in m.order:
+        if m.split_inline(n) or m.depth[n] > 3:
+            continue
+        nb = max(4, m.seqlen[n] + 1, (m.dist[n] + 2) if m.dist[n] >= 0 else 0)
+        variants = [("", "false")]
+        if "TAG" in m.req[n]:
+            variants = [("_end", "true")] if m.has_gate(n) else [("_start", "false"), ("_end", "true")]
+        for suffix, end_tag in variants:
+            q = SPLIT_QUICK.get(n, "") if (nb <= 5 and SPLIT_ENABLED_IN_QUICK) else ""
+            w("// @verif props=C02,C09,C14,C15,SPLIT tier=thorough quick=%s fns=Lexer::%s,StateMachine::break_on_end_of_input,Lexer::adjust_for_next_input note=split_vs_whole" % (q, n))
+            w("#[kani::proof]")
+            w("#[kani::unwind(%d)]" % (nb + 3))
+            w("fn split_lexer_%s%s() {" % (n, suffix))
+            w("    const NB: usize = %d;" % nb)
+            w("    let input: [u8; NB] = kani::any();")
+            w("    let n: usize = kani::any();")
+            w("    let k: usize = kani::any();")
+            w("    kani::assume(n <= NB && k < n);")
+            w("    let s = sym_any();")
+            w("    let (req, kk, _) = T::info(%d);" % sid[n])
+            w("    let mut la = build(&s, req, %s);" % end_tag)
+            w("    let eff = eff_req_for(%s, req);" % end_tag)
+            w("    // the prefix contains the cursor: the pre-state is a state the machine can be in after reading input[..k']")
+            w("    kani::assume(inv(&la, eff, kk, T::dist(%d), k));" % sid[n])
+            w("    let mut lb = build(&s, req, %s);" % end_tag)
+            w("    let last: bool = kani::any();")
+            w("    la.is_last_input = last;")
+            w("    la.state = <Lexer<StepSink> as StateMachine>::%s as State<StepSink>;" % n)
+            w("    lb.state = la.state;")
+            w("    let pc: usize = kani::any();")
+            w("    kani::assume(pc <= usize::MAX / 2);")
+            w("    let scan: bool = kani::any();")
+            w("    let mut ca = new_ctx(pc, scan);")
+            w("    let mut cb = new_ctx(pc, scan);")
+            w("    let ra = outcome(<Lexer<StepSink> as StateMachine>::%s(&mut la, &mut ca, &input[..n]));" % n)
+            w("    let rb1 = outcome(<Lexer<StepSink> as StateMachine>::%s(&mut lb, &mut cb, &input[..k]));" % n)
+            w("    match rb1 {")
+            w("        Out::Break(c) => {")
+            w("            // what Parser::parse and TransformStream::write do between two chunks")
+            w("            cb.previously_consumed_byte_count += c;")
+            w("            lb.is_last_input = last;")
+            w("            let nid = T::state_id(&lb);")
+            w("            let rest = &input[c..n];")
+            w("            let rb2 = match nid {")
+            for t in sorted(m.brk[n], key=m.order.index):
+                w("                %d => outcome(<Lexer<StepSink> as StateMachine>::%s(&mut lb, &mut cb, rest))," % (sid[t], t))
+            w("                _ => {")
+            w("                    // the break happened inside a state with enter actions (anonymous continuation): not comparable here")
+            w("                    core::mem::forget(la); core::mem::forget(lb); core::mem::forget(ca); core::mem::forget(cb);")
+            w("                    return;")
+            w("                }")
+            w("            };")
+            w("            same_lexemes(&ca.output_sink, &cb.output_sink);")
+            w("            same_scalars(&la, &lb);")
+            w("            match (ra, rb2) {")
+            w("                (Out::Ok, Out::Ok) => {")
+            w("                    assert!(T::state_id(&la) == T::state_id(&lb), \"[C02] the successor state does not depend on the split\");")
+            w("                    assert!(la.next_pos == lb.next_pos + c && la.lexeme_start == lb.lexeme_start + c, \"[C02,C14] positions differ exactly by the bytes consumed before the split\");")
+            w("                }")
+            w("                (Out::Break(x), Out::Break(y)) => {")
+            w("                    assert!(x == c + y, \"[C02,C09] the bytes consumed so far do not depend on how the input was split\");")
+            w("                    assert!(T::state_id(&la) == T::state_id(&lb), \"[C02] the state at the end of the input does not depend on the split\");")
+            w("                    if !last { assert!(la.next_pos == lb.next_pos && la.lexeme_start == lb.lexeme_start && la.token_part_start == lb.token_part_start, \"[C02] the carried-over state does not depend on the split\"); }")
+            w("                }")
+            w("                (Out::Switch(x), Out::Switch(y)) => assert!(x == y + c, \"[C02,C06] the hand-over position does not depend on the split\"),")
+            w("                _ => assert!(false, \"[C02] the kind of outcome does not depend on the split\"),")
+            w("            }")
+            w("            kani::cover!(c > 0 && matches!(rb2, Out::Ok));")
+            w("            kani::cover!(matches!(rb2, Out::Break(_)));")
+            w("        }")
+            w("        Out::Ok => {")
+            w("            // the transition happened inside the prefix: the longer chunk must behave identically")
+            w("            assert!(ra == Out::Ok, \"[C02] a transition decided inside the prefix is also taken with more input\");")
+            w("            same_lexemes(&ca.output_sink, &cb.output_sink);")
+            w("            same_scalars(&la, &lb);")
+            w("            assert!(T::state_id(&la) == T::state_id(&lb) && la.next_pos == lb.next_pos && la.lexeme_start == lb.lexeme_start, \"[C02] look-ahead never reads past the prefix to decide\");")
+            w("        }")
+            w("        Out::Switch(p) => {")
+            w("            assert!(ra == Out::Switch(p), \"[C02,C06] a mode switch decided inside the prefix is also taken with more input\");")
+            w("            same_lexemes(&ca.output_sink, &cb.output_sink);")
+            w("        }")
+            w("        Out::Other => assert!(false, \"[C15] no error without a failing sink\"),")
+            w("    }")
+            w("    core::mem::forget(la); core::mem::forget(lb); core::mem::forget(ca); core::mem::forget(cb);")
+            w("}")
+            w("")
+    return "\n".join(o)
+
+
 def generate(repo, overlay, tier):
     m = Model(repo)
     dst = os.path.join(overlay, "src", "parser", "lexer", "verif_kani_steps_gen.rs")
@@ -440,6 +550,10 @@ def generate(repo, overlay, tier):
     text = gen_lexer(m, tier)
     if not os.path.exists(dst) or open(dst).read() != text:
         open(dst, "w").write(text)
+    dst2 = os.path.join(overlay, "src", "parser", "lexer", "verif_kani_split_gen.rs")
+    text2 = gen_split(m, tier)
+    if not os.path.exists(dst2) or open(dst2).read() != text2:
+        open(dst2, "w").write(text2)
     try:
         import gen_scanner
         gen_scanner.generate_scanner(m, overlay, tier)
